@@ -45,6 +45,9 @@ func smallPayload(r *rng) []byte {
 	return b
 }
 
+// shapes of entry-less saves generated, for the evidence
+var stateOnlyShapes = map[string]int{}
+
 func genSmallOps(r *rng, nops int) (ops []genOp, snaps []walpb.Snapshot) {
 	var lastIndex, vote, commit, snapIndex uint64
 	term := uint64(1)
@@ -63,12 +66,30 @@ func genSmallOps(r *rng, nops int) (ops []genOp, snaps []walpb.Snapshot) {
 			if r.chance(1, 2) {
 				snapIndex = idx
 			}
-		case k < 25:
-			if lastIndex > commit && r.chance(2, 3) {
+		case k < 34:
+			// a Save without entries: commit-only, vote-only, term-only, term+vote, an identical
+			// state again, the empty hard state (each after whatever came before)
+			switch v := r.intn(12); {
+			case v < 3 && lastIndex > commit:
 				commit += 1 + uint64(r.intn(int(lastIndex-commit)))
-			} else {
+				stateOnlyShapes["save_commit_only"]++
+			case v < 6:
+				vote = uint64(r.intn(4)) // vote only (0 = vote cleared)
+				stateOnlyShapes["save_vote_only"]++
+			case v < 8:
+				term++ // term only
+				stateOnlyShapes["save_term_only"]++
+			case v < 10:
 				term++
-				vote = uint64(1 + r.intn(3))
+				vote = uint64(r.intn(4))
+				stateOnlyShapes["save_term_and_vote"]++
+			case v < 11:
+				// unchanged state saved again
+				stateOnlyShapes["save_same_state"]++
+			default:
+				ops = append(ops, genOp{kind: "save"}) // Save(HardState{}, nil): returns early
+				stateOnlyShapes["save_empty"]++
+				continue
 			}
 			op = genOp{kind: "save", st: raftpb.HardState{Term: term, Vote: vote, Commit: commit}}
 		default:
@@ -222,6 +243,16 @@ func genSmallCmd(out string, seed uint64, thorough bool) error {
 		}
 		fmt.Fprintf(w, "READ %s %s 0 0\n", next(), final.id)
 		stats["read"]++
+		// a process-kill image after EVERY operation: what Open+ReadAll finds must contain every
+		// completed save (entries; Term and Vote of the last hard state)
+		for i, k := range sr.kills {
+			emitDir(w, wid, k)
+			fmt.Fprintf(w, "K %s %s 0 0 %d\n", next(), k.id, sr.killNops[i])
+			stats["kill_images"]++
+			if sr.dirAt[i] < 0 {
+				stats["kill_images_unsynced"]++
+			}
+		}
 		if len(snaps) > 0 {
 			sn := snaps[r.intn(len(snaps))]
 			fmt.Fprintf(w, "READ %s %s %s %s\n", next(), final.id, hx(sn.Index), hx(sn.Term))
@@ -342,6 +373,9 @@ func genSmallCmd(out string, seed uint64, thorough bool) error {
 				}
 			}
 		}
+	}
+	for k, v := range stateOnlyShapes {
+		stats[k] = v
 	}
 	keys := make([]string, 0, len(stats))
 	for k := range stats {
